@@ -88,6 +88,7 @@ type Interp struct {
 	tolerant int // >0 while running package initialisers
 
 	sums        []*hashSum
+	jsonBlobs   []IfaceV
 	now         *smt.Term // frozen clock: symbolic instant + harness-controlled advances
 	timerBudget int
 
